@@ -75,6 +75,28 @@ def decoder_of(path):
     return None
 
 
+def decoder_part(prog, path, memo=None, depth=0):
+    """The decoder a function belongs to: the decoder's own parse/parse_be (and closures), or a private helper all
+    of whose callers belong to one and the same decoder (`FieldParser::parse_with_cached` called only from
+    `Data::parse_be`)."""
+    d = decoder_of(path)
+    if d:
+        return d
+    memo = {} if memo is None else memo
+    root = re.sub(r"(::\{closure#\d+\})+$", "", path)
+    if root in memo:
+        return memo[root]
+    memo[root] = None
+    hb = prog.bodies.get(root)
+    if hb is None or hb.j.get("pub") or hb.derived or depth > 2:
+        return None
+    from .common import call_sites_of
+    ds = set(decoder_part(prog, cb.path, memo, depth + 1) for cb, _, _ in call_sites_of(prog, root))
+    if len(ds) == 1 and None not in ds:
+        memo[root] = ds.pop()
+    return memo[root]
+
+
 def run(ctx, env):
     prog = env.prog("default")
     an = An(prog)
@@ -99,11 +121,30 @@ def run(ctx, env):
             if d and r["body"].path.split("::parse")[1].startswith(("_be", "::", "")) and "parse_le" not in r["body"].path:
                 _, key = an.lift(r["body"], an.op(r["body"], r["term"]["args"][1]))
                 reads_by_decoder.setdefault(d, []).append((r["adt"], r["field"], peel(key)))
+            elif d is None and "parse_le" not in r["body"].path and decoder_part(prog, r["body"].path):
+                # the lookup sits in a private helper of the decoder: its key in the decoder's own terms
+                from .common import lift_callers
+                d = decoder_part(prog, r["body"].path)
+                hb, key = an.lift(r["body"], an.op(r["body"], r["term"]["args"][1]))
+                for _ in range(3):
+                    if decoder_of(hb.path):
+                        break
+                    up = lift_callers(an, hb, key)
+                    if not up:
+                        break
+                    hb, key = up[0] if len(set(canon(x[1]) for x in up)) == 1 else (hb, ("unknown", "helper called with differing keys"))
+                    if key[0] == "unknown":
+                        break
+                key = peel(key)
+                while key[0] in ("ref", "deref"):
+                    key = peel(key[1])
+                reads_by_decoder.setdefault(d, []).append((r["adt"], r["field"], key))
     # R7.1
     n = 0
     guarded_decoders = {}
     guard_bodies = {}
     handed = set()
+    handed_callees = set()
     def guard_helper(p):
         """A private helper that performs the contains_key test(s) on behalf of the dispatch function
         (`fn known_template_kind(&self, id) -> Option<Kind>`): inlined at CFG level into its caller."""
@@ -137,6 +178,7 @@ def run(ctx, env):
                 n += 1
                 guarded_decoders.setdefault(d2, []).append(okh)
                 handed.add(d2)
+                handed_callees.add((d2, c.path))
                 if okh:
                     guard_bodies.setdefault(b.path, b)
                 ctx.ob("R7.1", b.path, "guarded:%s" % d2, okh,
@@ -180,6 +222,25 @@ def run(ctx, env):
             guarded_decoders.setdefault(d, []).append(ok)
             ctx.ob("R7.1", b.path, "guarded:%s" % d, ok, why, site=b.line(blk))
     ctx.floor("R7.1", "crate", "decoder call sites", n, 4)
+    # R7.8: a Data / OptionsData body is never made up: what the dispatch wraps is what a (guarded) decoder returned
+    ctx.rule("R7.8", "every FlowSetBody::Data / ::OptionsData value built on the parse path wraps the value returned by the decoder of that kind (whose calls R7.1 shows guarded): no path - an empty body, a short cut before the lookup - reports data records without the template having been found")
+    n8 = 0
+    for b in list(bodies.values()):
+        if b.derived or "parse_le" in b.path:
+            continue
+        for (blk, i, st) in block_aggs(b):
+            rv = st["rv"]
+            if not (rv["adt"].endswith("::FlowSetBody") and rv.get("variant") in ("Data", "OptionsData")):
+                continue
+            want = rv["adt"].rsplit("::", 1)[0] + "::" + rv["variant"]
+            n8 += 1
+            hb, e8r = an.lift(b, an.op(b, rv["ops"][0]))
+            e8 = an.expand(e8r)
+            made = [c8 for c8 in find(e8r, lambda n: n[0] == "call" and n[2] is not None and n[2].local and (decoder_of(n[2].path) == want or (want, n[2].path) in handed_callees))] + [c8 for c8 in find(e8, lambda n: n[0] == "call" and n[2] is not None and n[2].local and (decoder_of(n[2].path) == want or (want, n[2].path) in handed_callees))]
+            ctx.ob("R7.8", b.path, "wraps-decoder-result:%s" % rv["variant"], bool(made),
+                   "FlowSetBody::%s(%s) %s" % (rv["variant"], canon(peel(e8))[:100], "is the result of the decoder" if made else "is not the value returned by %s::parse: a %s body is reported without the guarded decode" % (want.rsplit("::", 1)[1], rv["variant"])),
+                   site=site(st["span"]) if st.get("span") else b.line(blk))
+    ctx.floor("R7.8", "crate", "Data/OptionsData bodies built on the parse path", n8, 4)
     for d in DECODERS:
         ctx.ob("R7.1", d, "decoder-has-guarded-callers", bool(guarded_decoders.get(d)) and all(guarded_decoders[d]),
                "%d call site(s), all guarded" % len(guarded_decoders.get(d, [])) if guarded_decoders.get(d) else "no call site found")
@@ -260,7 +321,7 @@ def run(ctx, env):
         if rb.derived or "parse_le" in rb.path:
             continue
         nfb += 1
-        d = decoder_of(rb.path)
+        d = decoder_part(prog, rb.path)
         if d:
             fb_decoders.add(d)
         ok = d is not None and bool(guarded_decoders.get(d)) and all(guarded_decoders[d])
